@@ -368,20 +368,28 @@ func c18HasSpace(variant int) bool {
 	return strings.HasSuffix(c18Variants[variant%len(c18Variants)], "P") && !strings.HasPrefix(c18Variants[variant%len(c18Variants)], "＜")
 }
 
-func c18TokenV(n, variant int) string {
+func c18TokenV(n, variant int) string { return c18TokenL(n, variant, "") }
+
+// c18Leads: bytes that announce a 2-, 3- or 4-byte UTF-8 sequence but stand alone (Latin-1 é ñ õ,
+// a lone 0xC3) — files in a legacy 8-bit encoding pass through the decoder byte for byte.  Put
+// immediately before a special character they must not make an escaper skip it.
+var c18Leads = []string{"\xc3", "\xe9", "\xf1", "\xf5"}
+
+// c18TokenL: like c18TokenV with `lead` inserted between every marker and its special character.
+func c18TokenL(n, variant int, lead string) string {
 	m := fmt.Sprintf("q%05d", n)
 	v := c18Variants[variant%len(c18Variants)]
 	switch v {
 	case "\"P":
-		return m + "\" onmouseover=\"" + m + "z"
+		return m + lead + "\" onmouseover=\"" + m + "z"
 	case "＂P":
-		return m + "＂ onmouseover=＂" + m + "z"
+		return m + lead + "＂ onmouseover=＂" + m + "z"
 	case "＜／P":
-		return m + "＜／td" + m + "＞" + m + "z"
+		return m + lead + "＜／td" + m + lead + "＞" + m + "z"
 	}
 	s := ""
 	for _, ch := range v {
-		s += m + string(ch)
+		s += m + lead + string(ch)
 	}
 	return s + m + "z"
 }
@@ -418,7 +426,7 @@ func (g *c18Gen) val(kind, benign string) string {
 	}
 	g.next++
 	g.kinds[g.next] = kind
-	tok := c18TokenV(g.next, g.variant(kind, true))
+	tok := c18TokenL(g.next, g.variant(kind, true), g.lead())
 	suffix := g.suffix()
 	switch g.r.Intn(3) {
 	case 0:
@@ -427,6 +435,16 @@ func (g *c18Gen) val(kind, benign string) string {
 		return benign + tok + suffix
 	}
 	return tok + benign + suffix
+}
+
+// lead: a quarter of the tokens have an invalid UTF-8 lead byte before every special character.
+func (g *c18Gen) lead() string {
+	if !g.r.Chance(1, 4) {
+		return ""
+	}
+	l := g.r.Pick(c18Leads)
+	g.variants[fmt.Sprintf("(lead)/%x", l)]++
+	return l
 }
 
 // suffix: half of the values end in entity-looking text.
@@ -487,7 +505,7 @@ func c18Generate(r *Rand, mode string, nowYear int, firstID int) *c18Doc {
 		case g.taint && r.Chance(1, 3):
 			g.next++
 			g.kinds[g.next] = kind
-			p = prefix + c18TokenV(g.next, g.variant(kind, false))
+			p = prefix + c18TokenL(g.next, g.variant(kind, false), g.lead())
 		case hostile && r.Chance(1, 2):
 			p = r.Pick(c18HostilePtr)
 		}
@@ -529,7 +547,7 @@ func c18Generate(r *Rand, mode string, nowYear int, firstID int) *c18Doc {
 				g.next++
 				kind := fmt.Sprintf("place part %d of %d", i+1, k)
 				g.kinds[g.next] = kind
-				tok := c18TokenV(g.next, g.variant(kind, true))
+				tok := c18TokenL(g.next, g.variant(kind, true), g.lead())
 				switch r.Intn(3) {
 				case 0:
 					parts[i] = tok
